@@ -195,6 +195,9 @@ class Ctx:
     # ------------------------------------------------------------ finish
     def finish(self):
         self.pool.close()
+        if not self.samples:
+            # every check passes samples for some of its cases; fall back to the distinct-case keys themselves
+            self.samples = [jsonable(k) for k in list(self.distinct)[:8]]
         cov = {
             "evaluations": int(self.counters.get("evaluations", 0)),
             "distinct_nontrivial": len(self.distinct),
